@@ -253,6 +253,9 @@ func runExprClaims(meta *common.Meta, seed int64, outDir string, n int) {
 			panic(fmt.Sprintf("generated expression outside the model fragment: %s: %v", byFn[fd.Name.Name].src, err))
 		}
 		byFn[fd.Name.Name].term = t
+		if !conv.FloatTypesAgreeAt(ret) {
+			byFn[fd.Name.Name].term = ""
+		}
 	}
 	hdr := "From GC Require Import Base Model_Expr Model_BoolSimp Model_Claims.\n" +
 		"(* (expression, diagnostics of sloppyLen / badCond / offBy1 / dupSubExpr inside it; blanks removed) *)\n" +
@@ -276,7 +279,12 @@ func runExprClaims(meta *common.Meta, seed int64, outDir string, n int) {
 		return out
 	}
 	nflag := 0
+	dropped := 0
 	for i, c := range cases {
+		if c.term == "" {
+			dropped++
+			continue
+		}
 		sh := i % shards
 		bodies[sh] = append(bodies[sh], fmt.Sprintf("(%s, (%s, %s, %s, %s))", c.term,
 			coqfmt.StrList(strip(c.msgs["sloppyLen"])), coqfmt.StrList(strip(c.msgs["badCond"])),
@@ -299,6 +307,7 @@ func runExprClaims(meta *common.Meta, seed int64, outDir string, n int) {
 	meta.Distinct += nflag
 	meta.Distribution["expr_cases"] = len(cases)
 	meta.Distribution["expr_flagged"] = nflag
+	meta.Distribution["expr_dropped_untyped_constant_in_float_context"] = dropped
 
 	// ---- oracle: evaluate the flagged expression on the grid
 	rg := common.NewRand(seed, "c12-grid")
